@@ -213,7 +213,7 @@ def _fam_str(f):
 # ----------------------------------------------------------------------
 def rule_st5(ctx: Ctx) -> RuleResult:
     """tee_map join table: indices written during a lifetime are reset when it ends (or begins)."""
-    r = RuleResult("ST-5", "tee_map join table: every slot written during a key lifetime is reset when the lifetime ends or starts")
+    r = RuleResult("ST-5", "tee_map join table: every slot written during a key lifetime is reset at creation, or at both completion and error; every store lands in the handled key's own slots")
     site = ctx.site("rxsci/operators/tee_map.py", "_process_many.subscribe_mux", kind="mux")
     specs = site.handler_specs("on_next")
     if len(specs) != 1 or not specs[0].bound:
@@ -243,7 +243,8 @@ def rule_st5(ctx: Ctx) -> RuleResult:
             continue
         r.groups.add((spec.qualname, cfg_str(cfg)))
         reset = {name: set() for name in written}
-        for kind in ("Completed", "Create"):
+        by_kind = {kind: {name: set() for name in written} for kind in ("Completed", "Create", "Error")}
+        for kind in ("Completed", "Create", "Error"):
             for p in ctx.paths(spec, kind, cfg):
                 r.paths += 1
                 fw = [m for m in mux_emissions(p) if m.event is not None and m.event.kind == kind]
@@ -254,7 +255,38 @@ def rule_st5(ctx: Ctx) -> RuleResult:
                     if e.k == "substore" and root_of(e.base)[0] == "free" and e.value[0] == "const" and e.value[1] in (None, False, 0):
                         name = root_of(e.base)[1]
                         if name in reset:
-                            reset[name].add(_slot_set(e.index, branch, li, p, guard_only=True))
+                            d = _slot_set(e.index, branch, li, p, guard_only=True)
+                            by_kind[kind][name].add(d)
+                            if kind != "Error":
+                                reset[name].add(d)
+        # every store into a join table addresses the slots of the key being handled (key[0]*n + ...): a store at an index that is not built on
+        # the key's base lands in the slots of another key, whatever it was meant to reset
+        tables = set(written)
+        for kind in ("Next", "Completed", "Create", "Error"):
+            for p in ctx.paths(spec, kind, cfg):
+                li = _loop_iters(p)
+                for e in p.trace:
+                    if e.k == "substore" and e.base[0] == "free" and e.base[1] in tables:
+                        d = _slot_set(e.index, branch, li, p, guard_only=False)
+                        r.ob(d[0] != "unknown", lambda e=e, kind=kind: Finding(
+                            "ST-5", "%s{%s,foreign-slot}" % (spec.qualname, root_of(e.base)[1]), e.where(),
+                            "while handling a %s event the join table is written at %s, an index that is not one of the handled key's own slots key[0]*n + "
+                            "[0, n): the store lands in the slots of another key, which may be in the middle of its lifetime (config %s)" % (
+                                kind, show(e.index), cfg_str(cfg))))
+        # a lifetime also ends with the key's error (every other stateful operator drops the key's state on OnErrorMux, the grouping heads
+        # reopen the same key index afterwards): the reset must cover that end too -- at creation (which covers every end), or at both
+        # completion and error
+        for name, wsets in written.items():
+            for w in wsets:
+                if w[0] == "unknown" or not any(_covers(x, w) for x in reset[name]):
+                    continue        # reported below
+                at = {kind: any(_covers(x, w) for x in by_kind[kind][name]) for kind in by_kind}
+                r.ob(at["Create"] or (at["Completed"] and at["Error"]), lambda n=name, w=w, at=at: Finding(
+                    "ST-5", "%s{%s,error-end}" % (spec.qualname, n), sample_node[n].where(),
+                    "join table '%s': the slots %s of a key are reset when the key completes, but neither when it is created nor when its lifetime "
+                    "ends with an error (a window of roll closed by a mux error): the values the branches left behind are joined with the items of "
+                    "the next lifetime served by the same key index (config %s)" % (n, _set_str(w), cfg_str(cfg)),
+                    ["written in Next: %s[%s]" % (n, show(sample_node[n].index))]))
         for name, wsets in written.items():
             for w in wsets:
                 ok = w[0] != "unknown" and any(_covers(x, w) for x in reset[name])
